@@ -144,7 +144,22 @@ def run(chk):
             os.remove(data_file)
         warmup = rng.choice([None, 0, 1, 2, 3, 5])
         ninv = rng.randint(1, 4)
-        per_inv = [[round(rng.uniform(1, 5000), 3) for _ in range(rng.randint(1, 9))] for _ in range(ninv)]
+        # (the harness prints whole microseconds, so three decimals of a millisecond survive)
+        # magnitudes 1e-3..1e9 and large common offsets also for the samples that travel through the data file
+        family = ["plain", "micro", "large", "offset9", "offset6", "eighths9"][i % 6]
+        def sess_value():
+            if family == "plain":
+                return round(rng.uniform(1, 5000), 3)
+            if family == "micro":
+                return round(rng.uniform(0.001, 1), 3)
+            if family == "large":
+                return round(rng.uniform(1e4, 1e8), 3)
+            if family == "offset9":
+                return round(1e9 + rng.uniform(0, 2), 3)
+            if family == "offset6":
+                return round(1e6 + rng.uniform(0, 50), 3)
+            return 1e9 + rng.randint(0, 40) * 0.125
+        per_inv = [[sess_value() for _ in range(rng.randint(1, 9))] for _ in range(ninv)]
         spec = RunSpec("B0", invocations=ninv, warmup=warmup)
         raw = raw_config([spec])
         split_at = rng.randint(0, ninv)    # first session records `split_at` invocations, then is cut
@@ -167,7 +182,7 @@ def run(chk):
         reloaded = run_session(raw, script, data_file)       # everything reloaded
         w = warmup or 0
         expect = [v for inv in per_inv for v in inv[w:]]
-        case = dict(warmup=warmup, per_invocation=per_inv, first_session_recorded=split_at)
+        case = dict(warmup=warmup, per_invocation=per_inv, first_session_recorded=split_at, values=family)
         for label, ses in (("live+reloaded", live), ("reloaded", reloaded)):
             st = ses.runs["B0"]["stats"]
             if not expect:
@@ -180,13 +195,15 @@ def run(chk):
                 chk.violation("C15 warm-up exclusion: sample count (%s)" % label, case, n, st.num_samples)
             elif abs(st.mean - float(mean)) > 5e-7 + 1e-9 * float(mean):
                 chk.violation("C15 mean live vs reloaded (%s)" % label, case, float(mean), st.mean)
-            elif abs(st.std_dev - math.sqrt(var)) > 1e-5 + 1e-6 * math.sqrt(var) or abs(st.min - mn) > 5e-7 or abs(st.max - mx) > 5e-7:
+            elif (abs(st.std_dev - math.sqrt(var)) > 1e-5 + 1e-6 * math.sqrt(var) + 4e-15 * float(mx) * math.sqrt(n)
+                  or abs(st.min - mn) > 5e-7 or abs(st.max - mx) > 5e-7):
                 chk.violation("C15 std/min/max live vs reloaded (%s)" % label, case,
                               [math.sqrt(var), mn, mx], [st.std_dev, st.min, st.max])
         if reloaded.starts:
             chk.violation("C15 reload: completed run not restarted", case, [], reloaded.starts)
         chk.case(("s", i, warmup, ninv, split_at), sample=dict(case, expected_samples=len(expect)) if i == 3 else None)
         chk.count("sessions_warmup_%s" % warmup)
+        chk.count("sessions_values_%s" % family)
     shutil.rmtree(d, ignore_errors=True)
 
     try:
